@@ -98,6 +98,19 @@ func oracleC06(v *View, vd *Verdict) {
 			endT = v.R.SimNs
 		}
 		budget := plan.Cfg.RetryDelayMs*nsMs*int64(plan.Cfg.RetryCount+2) + int64(3e9)
+		// an exchange that reuses the id of an earlier, finished exchange of the same side
+		for i, a := range cl {
+			for _, b := range cl[:i] {
+				if a.id != b.id || a.kind != b.kind || !b.done {
+					continue
+				}
+				vd.Trigger = true
+				if endT-a.t >= budget && !a.done {
+					vd.Add("C06", fmt.Sprintf("C06/exchange-lost/gw:%s x earlier-finished-%s", a.kind, b.kind), "session %s: %s reused id %d of an earlier finished exchange and never completed (no acknowledgement reached the client)", sv.Name, a.kind, a.id)
+				}
+				break
+			}
+		}
 		for _, a := range cl {
 			for _, b := range br {
 				if a.id != b.id || abs64(a.t-b.t) > plan.Broker.AnswerDelayMs*nsMs+int64(200e6) {
@@ -232,6 +245,22 @@ func genC06(g *Gen, idx int) *Plan {
 		}
 	}
 	p.Peers = []PeerPlan{{Name: "p1", Ops: sg.ops}}
+	if g.Bool(0.3) {
+		// ... "or an earlier finished exchange uses the same message ID": the peer reuses the id of its
+		// QoS 1 publish the moment the PUBACK is in
+		p.Family = "C06-gw-reuse"
+		p.Broker.AnswerDelayMs = 0
+		p.Broker.Injects = nil
+		sg2 := &sessGen{g: g, cid: "c1"}
+		sg2.gap(5, 200)
+		sg2.add(connectPkt("c1", 60, false, true))
+		sg2.gap(400, 900)
+		sg2.add(refsn.Pkt{Type: refsn.PUBLISH, TIT: refsn.TITShort, TopicID: refsn.ShortID("ab"), QoS: 1, MsgID: m, Data: []byte("mine1")})
+		sg2.gap(2000, 3000)
+		p.Peers = []PeerPlan{{Name: "p1", Ops: sg2.ops, Policy: PeerPolicy{ReuseID: int(g.Range(1, 3))}}}
+		p.Cfg.SN.MaxLatUs = g.Range(200, 3000)
+		sg = sg2
+	}
 	p.Cfg.HorizonMs = sg.t + cfg.RetryDelayMs*int64(cfg.RetryCount+2) + 9000
 	return p
 }
